@@ -739,3 +739,84 @@ Proof.
     repeat (destruct Hx as [Hx|Hx]; [subst x; vm_compute; split; intro; discriminate|]). destruct Hx.
   - vm_compute. reflexivity.
 Qed.
+
+(* ---- every exported sender ------------------------------------------------------------ *)
+
+Lemma rate_streqb_iff : forall a b, streqb a b = true <-> a = b.
+Proof.
+  induction a as [|x a IH]; destruct b as [|y b]; cbn [streqb]; split; intros H; try discriminate; auto.
+  - apply andb_true_iff in H. destruct H as [H1 H2]. apply N.eqb_eq in H1. apply IH in H2. now subst.
+  - inversion H; subst. apply andb_true_iff. split; [apply N.eqb_refl|now apply IH].
+Qed.
+
+Definition is_keepalive (name : str) : bool := streqb name (bs "Ping") || streqb name (bs "Pong").
+
+(* the table: exactly Ping and Pong go straight to Client.write; every other exported sender
+   (37 of them, Client.Send and Client.Quit included) ends in Client.Send *)
+Lemma entry_points_routes : forall name r,
+  In (name, r) entry_points -> (r = ViaWrite <-> (name = bs "Ping" \/ name = bs "Pong")).
+Proof.
+  intros name r H.
+  assert (B : forallb (fun p => match snd p with
+                                | ViaWrite => is_keepalive (fst p)
+                                | ViaSend => negb (is_keepalive (fst p))
+                                end) entry_points = true) by (vm_compute; reflexivity).
+  rewrite forallb_forall in B. specialize (B _ H). cbn [fst snd] in B.
+  unfold is_keepalive in B. destruct r; split; intros K; try discriminate.
+  - apply negb_true_iff, orb_false_iff in B. destruct B as [B1 B2].
+    destruct K as [K|K]; subst name; [rewrite (proj2 (rate_streqb_iff _ _) eq_refl) in B1|rewrite (proj2 (rate_streqb_iff _ _) eq_refl) in B2]; discriminate.
+  - apply orb_true_iff in B. destruct B as [B|B]; apply rate_streqb_iff in B; auto.
+  - reflexivity.
+Qed.
+
+Lemma entry_points_count : length entry_points = 39%nat /\ NoDup (map fst entry_points).
+Proof.
+  split; [reflexivity|].
+  assert (D : forall l : list str, (fix nd (l : list str) : bool :=
+              match l with [] => true | x :: r => negb (existsb (streqb x) r) && nd r end) l = true -> NoDup l).
+  { induction l as [|x l IH]; intros H; [constructor|].
+    apply andb_true_iff in H. destruct H as [H1 H2]. constructor; [|apply IH; exact H2].
+    intros HIn. apply negb_true_iff in H1.
+    assert (E : existsb (streqb x) l = true) by (apply existsb_exists; exists x; split; [exact HIn|apply rate_streqb_iff; reflexivity]).
+    congruence. }
+  apply D. vm_compute. reflexivity.
+Qed.
+
+(* what each path contributes, for both settings of GlobalFormat *)
+Lemma entry_actions_shape : forall gf now e,
+  entry_actions gf false ViaSend now e = [ARate now e; AEnq e] /\
+  entry_actions gf true ViaSend now e = [AEnq e] /\
+  (forall allow, entry_actions gf allow ViaWrite now e = [AEnq e]) /\
+  (forall allow r, entry_actions true allow r now e = entry_actions false allow r now e).
+Proof. intros. repeat split; intros; destruct r || idtac; reflexivity. Qed.
+
+(* C16 for every exported sender: after ANY monotone schedule, with the allowance used,
+   an event handed to a sender that ends in Client.Send (flood protection on, GlobalFormat
+   either way) is returned exactly its cost and then queued; an event handed to Ping/Pong,
+   or to anything with AllowFlood, is queued with no rate call and no delay *)
+Lemma entry_point_held : forall name gf acts now e r0,
+  entry_route name = Some ViaSend ->
+  0 <= wd r0 -> 0 <= ev_len e -> lens_ok acts ->
+  monotone (Z.max (last r0) (lastr r0)) (acts ++ [ARate now e]) ->
+  threshold + (now - Z.max (last r0) (lastr r0)) < wd r0 + charged (acts ++ [ARate now e]) ->
+  snd (exec (fst (exec (sys0 r0) acts)) (entry_actions gf false ViaSend now e)) = [cost (ev_len e)].
+Proof.
+  intros name gf acts now e r0 _ Hw He Hl Hm Hx.
+  pose proof (hold_all_schedules acts now e r0 Hw He Hl Hm Hx) as H.
+  cbn [entry_actions send_piece]. rewrite exec_cons. cbn [snd].
+  rewrite H. rewrite exec_cons. cbn [step snd fst exec]. reflexivity.
+Qed.
+
+Lemma entry_point_not_rated : forall gf allow r now e s,
+  r = ViaWrite \/ allow = true ->
+  snd (exec s (entry_actions gf allow r now e)) = [] /\
+  wd (rs (fst (exec s (entry_actions gf allow r now e)))) = wd (rs s).
+Proof.
+  intros gf allow r now e s H. apply no_rate_no_delay.
+  destruct H as [H|H]; subst; [reflexivity|destruct r; reflexivity].
+Qed.
+
+Example entry_point_held_sat :
+  entry_route (bs "SendRaw") = Some ViaSend /\ entry_route (bs "Pong") = Some ViaWrite /\
+  snd (exec (sys0 (mkR (30 * second) 0 0)) (entry_actions true false ViaSend 0 (mkE 0 0 30))) = [cost 30].
+Proof. vm_compute. auto. Qed.
